@@ -134,6 +134,15 @@ class Blocking(Runnable):
         self.min_backoff = 0.001
         self.max_backoff = 0.001
 
+    slow_wake = 0.0
+
+    def wake(self):
+        # (a wake-up that takes a moment widens the window between the two flag writes in stop(): harness-owned
+        # placement of the race "loop sees the stop request before it can see that the stop is final")
+        super().wake()
+        if self.slow_wake:
+            time.sleep(self.slow_wake)
+
     def do(self):
         self.calls += 1
         if self.block_next:
@@ -152,7 +161,7 @@ def gen_protocol(d, tier):
     for c in range(cycles):
         final = (c == cycles - 1) or d.chance(1, 4)
         acts.append(["start", d.choice((0.0005, 0.05, 2.0))])
-        acts.append(["stop", d.choice(("during_do", "during_sleep", "immediately")), final, d.bool()])
+        acts.append(["stop", d.choice(("during_do", "during_sleep", "immediately")), final, d.bool()] + ([0.03] if d.chance(1, 3) else []))
         if final:
             acts.append(["start_again"])
             break
@@ -181,9 +190,10 @@ def run_protocol(trace):
                 except RuntimeError:
                     pass
             elif a[0] == "stop":
-                _, where, final, wait_flag = a
+                _, where, final, wait_flag = a[:4]
                 if not started:
                     return invalid("stop before start")
+                r.slow_wake = a[4] if len(a) > 4 else 0.0
                 if where == "during_do":
                     r.block_next = True
                     r.wake()
